@@ -457,7 +457,7 @@ func (vc *VC) execUnOp(fr *Frame, st *State, x *ssa.UnOp) {
 		vc.typeFacts(st, t, x.Type())
 		vc.noteLoad(fr, st, x.X, loc, x.Pos())
 		if isStringType(x.Type()) {
-			vc.setShape(t, shHole("str", provenance(x, 0)))
+			vc.setShape(t, shHole("str", vc.prov(fr, x)))
 		}
 	case token.NOT:
 		vc.bind(fr, x, "Bool", fmt.Sprintf("(not %s)", vc.value(fr, st, x.X)))
